@@ -269,7 +269,19 @@ def check_c17(tier: str) -> int:
                         flat_ok = False
                 if flat_ok and (impl_ds != m_ds or reset == m_alive):
                     corr_bad += 1
-                    if not bad and corr_bad <= 5:
+                    extra = [d for d in impl_ds if d not in m_ds]
+                    if not bad and corr_bad <= 5 and extra:
+                        # the disagreement is itself a failing input: the client delivered a message which the protocol
+                        # model (whose decoders the C05/C17 theorems are about) does not read out of these bytes
+                        ck.violation("a message was delivered that the bytes do not mean (protocol model: malformed, or another message)",
+                                     dict(replay, kind="misread-vs-model", trigger={"class": "misread"}, model_deliveries=len(m_ds),
+                                          impl_deliveries=len(impl_ds), delivered=[repr(d)[:300] for d in extra[:2]],
+                                          model_alive=m_alive, impl_reset=reset))
+                    elif not bad and corr_bad <= 5 and reset and m_alive:
+                        ck.violation("input the protocol model tolerates (connection kept) made the client drop the connection",
+                                     dict(replay, kind="not-tolerated-vs-model", trigger={"class": "not-tolerated"},
+                                          model_deliveries=len(m_ds), impl_deliveries=len(impl_ds)))
+                    elif not bad and corr_bad <= 5:
                         ck.violation("receive-path model and implementation disagree",
                                      dict(replay, kind="correspondence", model_deliveries=len(m_ds), impl_deliveries=len(impl_ds),
                                           model_alive=m_alive, impl_reset=reset,
